@@ -25,7 +25,7 @@ static void post_handler(Net& n, const asio::any_io_executor& ex, H&& h, A... a)
 void Net::close(const StreamPtr& s) {
     if (s->connect_parked) complete_connect(s, asio::error::operation_aborted);
     if (s->read_parked) { auto h = std::move(s->read_h); s->read_parked = false; post_handler(*this, s->ex, std::move(h), error_code(asio::error::operation_aborted), size_t(0)); s->read_w.reset(); }
-    if (s->write_parked) { auto h = std::move(s->write_h); s->write_parked = false; post_handler(*this, s->ex, std::move(h), error_code(asio::error::operation_aborted), size_t(0)); s->write_w.reset(); }
+    if (s->write_parked) complete_write(s, asio::error::operation_aborted, 0);   // (logged like every other write completion)
     if (s->shutdown_parked) complete_shutdown(s, asio::error::operation_aborted);
     if (s->conn >= 0 && !conns[s->conn].client_closed) { conns[s->conn].client_closed = true; if (broker) broker->on_client_close(s->conn); }
     if (s->open || s->connected) { note("close stream " + std::to_string(s->id)); if (s->closed_ns < 0) s->closed_ns = vclock::now_ns(); }
